@@ -455,7 +455,7 @@ def validate_traces(ctx, module, cfg, traces, extra_env=None, workers=1, control
     nreal = len(traces)
     traces = list(traces) + list(controls)   # corrupted copies: the trace module must reject them
     with open(path, "w") as f:
-        json.dump(traces, f)
+        f.write(json.dumps(traces))      # dumps() uses the C encoder; dump(f) the slow pure-Python one
     env = {"TRACE_FILE": path}
     if extra_env:
         env.update(extra_env)
